@@ -470,6 +470,92 @@ SCOPES = {
 }
 
 
+def _split_top(sx, sep=", "):
+    out, depth, cur, i = [], 0, "", 0
+    while i < len(sx):
+        c = sx[i]
+        if c in "([{":
+            depth += 1
+        elif c in ")]}":
+            depth -= 1
+        if depth == 0 and sx.startswith(sep, i):
+            out.append(cur)
+            cur = ""
+            i += len(sep)
+            continue
+        cur += c
+        i += 1
+    if cur:
+        out.append(cur)
+    return out
+
+
+def builder_shapes(table):
+    """ADT name -> (builder name, [field -> arg index]) for every reviewed builder that is a pure wiring of its arguments into one
+    struct literal: `Parser::then_ignore = ThenIgnore{parser_a: arg1, parser_b: arg2, phantom: new()}`."""
+    shapes = {}
+    for q, want in table.items():
+        if len(want) != 1 or not want[0].startswith("returns "):
+            continue
+        t = want[0][len("returns "):]
+        m = re.match(r"^([A-Z]\w*)\{(.*)\}$", t)
+        if not m:
+            continue
+        fields = []
+        ok = True
+        for fv in _split_top(m.group(2)):
+            if ": " not in fv:
+                ok = False
+                break
+            fn_, v = fv.split(": ", 1)
+            if fn_ == "phantom" or v in ("new()", "PhantomData{}", "EmptyPhantom{0: PhantomData{}}"):
+                fields.append((fn_, None))
+            elif re.match(r"^arg\d+$", v):
+                fields.append((fn_, int(v[3:])))
+            else:
+                ok = False
+                break
+        args = sorted(a for _, a in fields if a is not None)
+        if ok and args and args == list(range(1, len(args) + 1)) and m.group(1) not in shapes:
+            shapes[m.group(1)] = (q.split("::")[-1], fields)
+    return shapes
+
+
+def fold_builders(term, shapes):
+    """Rewrite every struct literal that is exactly what a reviewed builder builds into the call of that builder
+    (`ThenIgnore{parser_a: X, parser_b: Y, phantom: new()}` -> `then_ignore(X, Y)`), innermost first: writing the literal instead of
+    calling the constructor method is the same grammar."""
+    out, i = "", 0
+    while i < len(term):
+        m = re.compile(r"([A-Z]\w*)\{").match(term, i)
+        if m and (i == 0 or not (term[i - 1].isalnum() or term[i - 1] == "_")):
+            j, depth = m.end(), 1
+            while j < len(term) and depth:
+                if term[j] in "([{":
+                    depth += 1
+                elif term[j] in ")]}":
+                    depth -= 1
+                j += 1
+            inner = term[m.end():j - 1]
+            name = m.group(1)
+            fvs = [fv.split(": ", 1) for fv in _split_top(inner) if ": " in fv]
+            fvs = [(a, fold_builders(b, shapes)) for a, b in fvs]
+            sh = shapes.get(name)
+            if sh is not None and [a for a, _ in fvs] == [a for a, _ in sh[1]]:
+                byarg = {}
+                for (fn_, argi), (_, v) in zip(sh[1], fvs):
+                    if argi is not None:
+                        byarg[argi] = v
+                out += "%s(%s)" % (sh[0], ", ".join(byarg[k] for k in sorted(byarg)))
+            else:
+                out += "%s{%s}" % (name, ", ".join("%s: %s" % (a, b) for a, b in fvs))
+            i = j
+            continue
+        out += term[i]
+        i += 1
+    return out
+
+
 def rule_grammar_for(pid):
     pat = re.compile(SCOPES[pid])
     return lambda facts: rule_grammar(facts, only=lambda q: bool(pat.search(q)), name="GRAMMAR", floor_key="GRAMMAR.%s.builders" % pid)
@@ -491,6 +577,12 @@ def rule_grammar(facts, only=None, name="GRAMMAR", floor_key=None):
         n += 1
         nclos += sum(x.count("fn<") for x in got)
         ok = sorted(got) == sorted(want)
+        if not ok:
+            # the same grammar written with struct literals where the reference calls the constructor methods (or vice versa)
+            shapes = builder_shapes(GT.table_for(facts))
+            own = q.split("::")[-1]
+            sh2 = {k: v for k, v in shapes.items() if v[0] != own}     # a builder is not folded into itself
+            ok = sorted(fold_builders(x, sh2) for x in got) == sorted(fold_builders(x, sh2) for x in want)
         r.ob(ok)
         if len(r.samples) < 4 and ("fn<" in " ".join(got)):
             r.samples.append({q: got})
